@@ -1,13 +1,543 @@
-//! Thread scheduler (baton). Stub for now: single-threaded mode only.
+//! E2: the baton scheduler.
+//!
+//! Real OS threads, but exactly one runs at a time. At every scheduling point
+//! (the cfg(a10_verif) hooks inside a10: lock attempts, loads of values shared
+//! with the kernel, queue tail/head stores, polling-state changes; plus every
+//! simulated-kernel entry/exit and the harness' own API boundaries) a seeded
+//! policy decides which thread continues. Every schedule produced this way is a
+//! legal sequentially consistent execution of the real program, and the seed
+//! reproduces it.
+
+#![allow(dead_code)]
+
+use std::cell::Cell;
+use std::sync::atomic::{AtomicBool, Ordering};
+use std::sync::{Condvar, Mutex};
+
+use crate::mon::alloc::MonGuard;
+use crate::rng::{Rng, fnv};
 
 pub const P_KERNEL_ENTER: u32 = 100;
 pub const P_KERNEL_EXIT: u32 = 101;
+pub const P_API: u32 = 102;
+pub const P_KTHREAD: u32 = 103;
+pub const P_YIELD: u32 = 104;
 
-/// A scheduling point inside harness/simk code.
-pub fn point(_id: u32) {}
+#[derive(Copy, Clone, Debug, PartialEq, Eq)]
+enum Status {
+    Runnable,
+    /// Failed to take a lock, will retry when scheduled again.
+    BlockedLock,
+    /// Blocked in io_uring_enter waiting for `want` completions on ring `fd`.
+    BlockedKernel(i32, u32),
+    /// Waiting for a condition (`State::conds`) that another thread makes true.
+    BlockedCond,
+    Finished,
+}
+
+struct State {
+    running: bool,
+    current: usize,
+    status: Vec<Status>,
+    rng: Rng,
+    /// Per mille probability of switching at a point.
+    switch_pm: u64,
+    steps: u64,
+    max_steps: u64,
+    trace_hash: u64,
+    switches: u64,
+    /// Budget exhausted: everybody runs freely to the end.
+    free_run: bool,
+    /// PCT-style: thread priorities (higher runs first) and change points.
+    pct: Option<Pct>,
+    points_by_id: [u64; 16],
+    lock_blocks: u64,
+    kernel_blocks: u64,
+    conds: Vec<Option<Box<dyn Fn() -> bool + Send>>>,
+    /// Progress counter: incremented at every point passed by a running thread.
+    epoch: u64,
+    blocked_epoch: Vec<u64>,
+}
+
+fn notify_all() {
+    for c in &CVS {
+        c.notify_all();
+    }
+}
+
+struct Pct {
+    prio: Vec<u32>,
+    change_at: Vec<u64>,
+}
+
+static STATE: Mutex<Option<State>> = Mutex::new(None);
+static CVS: [Condvar; 8] = [const { Condvar::new() }; 8];
+static ACTIVE: AtomicBool = AtomicBool::new(false);
+/// Set when a violation made the rest of the schedule meaningless (e.g. the
+/// submission queue was overrun): threads stop calling into a10 and leak
+/// what they hold.
+pub static ABORT: AtomicBool = AtomicBool::new(false);
+
+pub fn aborted() -> bool {
+    ABORT.load(Ordering::SeqCst)
+}
+
+thread_local! {
+    static TID: Cell<Option<usize>> = const { Cell::new(None) };
+}
+
+fn tid() -> Option<usize> {
+    TID.try_with(|t| t.get()).unwrap_or(None)
+}
+
+pub fn active() -> bool {
+    ACTIVE.load(Ordering::Relaxed) && tid().is_some()
+}
+
+fn kernel_ready(fd: i32, want: u32) -> bool {
+    let mut k = crate::simk::k();
+    crate::simk::enter::cq_ready(&mut k, fd) >= want
+}
+
+/// Choose who runs next. `me` is the calling thread, `must_switch` excludes it
+/// if anybody else can run.
+fn pick(st: &mut State, me: usize, must_switch: bool) -> Option<usize> {
+    let n = st.status.len();
+    let mut cands: Vec<usize> = Vec::with_capacity(n);
+    for i in 0..n {
+        let ok = match st.status[i] {
+            Status::Runnable => true,
+            // Retrying is pointless until somebody else made a step.
+            Status::BlockedLock => st.epoch > st.blocked_epoch[i],
+            Status::BlockedKernel(fd, want) => kernel_ready(fd, want),
+            Status::BlockedCond => st.conds[i].as_ref().map(|c| c()).unwrap_or(true),
+            Status::Finished => false,
+        };
+        if ok {
+            cands.push(i);
+        }
+    }
+    if cands.is_empty() {
+        return None;
+    }
+    let others: Vec<usize> = cands.iter().copied().filter(|i| *i != me).collect();
+    if must_switch {
+        if others.is_empty() {
+            return if cands.contains(&me) { Some(me) } else { None };
+        }
+        return Some(choose(st, &others));
+    }
+    let me_ok = cands.contains(&me);
+    if !me_ok {
+        return Some(choose(st, &others));
+    }
+    if let Some(p) = st.pct.as_mut() {
+        // Priority change points.
+        if p.change_at.contains(&st.steps) {
+            let low = p.prio.iter().copied().min().unwrap_or(1).saturating_sub(1);
+            p.prio[me] = low;
+        }
+        let best = cands.iter().copied().max_by_key(|i| p.prio[*i]).unwrap();
+        return Some(best);
+    }
+    if !others.is_empty() && st.rng.below(1000) < st.switch_pm {
+        Some(choose(st, &others))
+    } else {
+        Some(me)
+    }
+}
+
+fn choose(st: &mut State, xs: &[usize]) -> usize {
+    if let Some(p) = st.pct.as_ref() {
+        return xs.iter().copied().max_by_key(|i| p.prio[*i]).unwrap();
+    }
+    xs[st.rng.below(xs.len() as u64) as usize]
+}
+
+fn switch_to(st: &mut State, me: usize, next: usize) {
+    if next != me {
+        st.switches += 1;
+        st.trace_hash = fnv(st.trace_hash, &[(next as u8) | 0x80, (st.steps & 0xff) as u8]);
+        st.current = next;
+        if let Status::BlockedLock | Status::BlockedKernel(..) | Status::BlockedCond = st.status[next] {
+            st.status[next] = Status::Runnable;
+            st.conds[next] = None;
+        }
+        CVS[next & 7].notify_all();
+    }
+}
+
+fn wait_for_baton<'a>(mut g: std::sync::MutexGuard<'a, Option<State>>, me: usize) -> std::sync::MutexGuard<'a, Option<State>> {
+    loop {
+        {
+            let st = g.as_ref().unwrap();
+            if st.free_run || st.current == me {
+                return g;
+            }
+        }
+        g = CVS[me & 7].wait(g).unwrap_or_else(|e| e.into_inner());
+    }
+}
+
+/// A scheduling point.
+pub fn point(id: u32) {
+    if !ACTIVE.load(Ordering::Relaxed) {
+        return;
+    }
+    let Some(me) = tid() else { return };
+    let _m = MonGuard::new();
+    let mut g = STATE.lock().unwrap_or_else(|e| e.into_inner());
+    let st = g.as_mut().unwrap();
+    if st.free_run {
+        return;
+    }
+    st.steps += 1;
+    st.epoch += 1;
+    st.points_by_id[(id as usize) & 15] += 1;
+    st.trace_hash = fnv(st.trace_hash, &[me as u8, id as u8]);
+    if st.steps > st.max_steps {
+        st.free_run = true;
+        notify_all();
+        return;
+    }
+    match pick(st, me, false) {
+        Some(next) if next != me => {
+            switch_to(st, me, next);
+            let _g = wait_for_baton(g, me);
+        }
+        _ => {}
+    }
+}
+
+/// The calling thread could not take a lock.
+pub fn lock_blocked(_addr: usize) {
+    if !ACTIVE.load(Ordering::Relaxed) {
+        std::thread::yield_now();
+        return;
+    }
+    let Some(me) = tid() else { return };
+    let _m = MonGuard::new();
+    let mut g = STATE.lock().unwrap_or_else(|e| e.into_inner());
+    let st = g.as_mut().unwrap();
+    if st.free_run {
+        drop(g);
+        std::thread::yield_now();
+        return;
+    }
+    st.steps += 1;
+    st.lock_blocks += 1;
+    st.status[me] = Status::BlockedLock;
+    st.blocked_epoch[me] = st.epoch;
+    match pick(st, me, true) {
+        Some(next) if next != me => {
+            switch_to(st, me, next);
+            let mut g = wait_for_baton(g, me);
+            g.as_mut().unwrap().status[me] = Status::Runnable;
+        }
+        _ => {
+            // Nobody else can run: whoever holds the lock is gone (or only
+            // lock-blocked threads remain: let them retry).
+            st.status[me] = Status::Runnable;
+            st.epoch += 1;
+            st.steps += 50;
+            if st.steps > st.max_steps {
+                st.free_run = true;
+                notify_all();
+            }
+        }
+    }
+}
 
 /// Wait (without holding the simk lock) until ring `fd` may have `want`
 /// completions. Returns false if no other thread can ever post one.
-pub fn wait_for_cq(_fd: i32, _want: u32) -> bool {
-    false
+pub fn wait_for_cq(fd: i32, want: u32) -> bool {
+    if !ACTIVE.load(Ordering::Relaxed) || tid().is_none() {
+        return free_wait_for_cq(fd, want);
+    }
+    let me = tid().unwrap();
+    let _m = MonGuard::new();
+    let mut g = STATE.lock().unwrap_or_else(|e| e.into_inner());
+    let st = g.as_mut().unwrap();
+    if st.free_run {
+        drop(g);
+        return free_wait_for_cq(fd, want);
+    }
+    st.steps += 1;
+    st.kernel_blocks += 1;
+    st.status[me] = Status::BlockedKernel(fd, want);
+    match pick(st, me, true) {
+        Some(next) if next != me => {
+            switch_to(st, me, next);
+            let mut g = wait_for_baton(g, me);
+            g.as_mut().unwrap().status[me] = Status::Runnable;
+            true
+        }
+        Some(_) => {
+            // Ready already.
+            st.status[me] = Status::Runnable;
+            true
+        }
+        None => {
+            st.status[me] = Status::Runnable;
+            false
+        }
+    }
+}
+
+/// Block the calling thread until `cond` holds. Returns false if it can never
+/// become true because no other thread can run (or the schedule was aborted).
+pub fn wait_until(cond: impl Fn() -> bool + Send + 'static) -> bool {
+    if cond() {
+        return true;
+    }
+    if !ACTIVE.load(Ordering::Relaxed) || tid().is_none() {
+        return free_wait_until(&cond);
+    }
+    let me = tid().unwrap();
+    let _m = MonGuard::new();
+    let mut g = STATE.lock().unwrap_or_else(|e| e.into_inner());
+    let st = g.as_mut().unwrap();
+    if st.free_run {
+        drop(g);
+        return free_wait_until(&cond);
+    }
+    st.steps += 1;
+    st.status[me] = Status::BlockedCond;
+    st.conds[me] = Some(Box::new(cond));
+    match pick(st, me, true) {
+        Some(next) if next != me => {
+            switch_to(st, me, next);
+            let mut g = wait_for_baton(g, me);
+            let st = g.as_mut().unwrap();
+            st.status[me] = Status::Runnable;
+            let free = st.free_run;
+            let c = st.conds[me].take();
+            drop(g);
+            match c {
+                // Released by free-run, not by the condition.
+                Some(c) if free => free_wait_until(&*c),
+                Some(c) => c(),
+                None => true,
+            }
+        }
+        Some(_) => {
+            st.status[me] = Status::Runnable;
+            st.conds[me] = None;
+            true
+        }
+        None => {
+            st.status[me] = Status::Runnable;
+            st.conds[me] = None;
+            false
+        }
+    }
+}
+
+fn free_wait_until(cond: &dyn Fn() -> bool) -> bool {
+    let mut spins = 0u64;
+    while !cond() {
+        if aborted() {
+            return false;
+        }
+        spins += 1;
+        if spins > 5_000_000 {
+            return false;
+        }
+        std::thread::yield_now();
+    }
+    true
+}
+
+/// Let any other thread that can run do so.
+pub fn yield_now() {
+    if !ACTIVE.load(Ordering::Relaxed) {
+        std::thread::yield_now();
+        return;
+    }
+    let Some(me) = tid() else { return };
+    let _m = MonGuard::new();
+    let mut g = STATE.lock().unwrap_or_else(|e| e.into_inner());
+    let st = g.as_mut().unwrap();
+    if st.free_run {
+        drop(g);
+        std::thread::yield_now();
+        return;
+    }
+    st.steps += 1;
+    if st.steps > st.max_steps {
+        st.free_run = true;
+        notify_all();
+        return;
+    }
+    match pick(st, me, true) {
+        Some(next) if next != me => {
+            switch_to(st, me, next);
+            let _g = wait_for_baton(g, me);
+        }
+        _ => {}
+    }
+}
+
+/// Number of threads that are neither finished nor able to run right now
+/// (excluding the caller).
+pub fn others_all_blocked() -> bool {
+    let Some(me) = tid() else { return false };
+    let _m = MonGuard::new();
+    let mut g = STATE.lock().unwrap_or_else(|e| e.into_inner());
+    let Some(st) = g.as_mut() else { return false };
+    let n = st.status.len();
+    (0..n).filter(|i| *i != me).all(|i| match st.status[i] {
+        Status::Finished => true,
+        Status::BlockedCond => !st.conds[i].as_ref().map(|c| c()).unwrap_or(true),
+        _ => false,
+    })
+}
+
+/// Free-running threads (E3): number of harness threads that may still post.
+pub static FREE_THREADS: std::sync::atomic::AtomicUsize = std::sync::atomic::AtomicUsize::new(0);
+
+fn free_wait_for_cq(fd: i32, want: u32) -> bool {
+    // Without a scheduler: spin while other free-running threads exist.
+    let mut spins = 0u32;
+    loop {
+        if kernel_ready(fd, want) {
+            return true;
+        }
+        if FREE_THREADS.load(Ordering::Acquire) <= 1 {
+            // Give stragglers one more chance.
+            std::thread::yield_now();
+            return kernel_ready(fd, want);
+        }
+        spins += 1;
+        if spins > 2_000_000 {
+            return false;
+        }
+        std::thread::yield_now();
+    }
+}
+
+pub struct RunStats {
+    pub steps: u64,
+    pub switches: u64,
+    pub trace_hash: u64,
+    pub budget_exhausted: bool,
+    pub lock_blocks: u64,
+    pub kernel_blocks: u64,
+    pub points_by_id: [u64; 16],
+}
+
+#[derive(Clone, Copy)]
+pub enum Policy {
+    /// Switch with the given per-mille probability at every point.
+    Random(u64),
+    /// PCT with `d` priority change points over an estimated `k` steps.
+    Pct(u32, u64),
+}
+
+pub fn install_hooks() {
+    a10::verif::install_sched(a10::verif::Sched { active, point, lock_blocked });
+}
+
+/// Run `threads` under the scheduler until all of them finished.
+pub fn run(threads: Vec<Box<dyn FnOnce() + Send>>, seed: u64, policy: Policy, max_steps: u64) -> RunStats {
+    let n = threads.len();
+    let mut rng = Rng::new(seed);
+    let (switch_pm, pct) = match policy {
+        Policy::Random(pm) => (pm, None),
+        Policy::Pct(d, k) => {
+            let mut prio: Vec<u32> = (0..n as u32).map(|i| 100 + i).collect();
+            rng.shuffle(&mut prio);
+            let change_at: Vec<u64> = (0..d).map(|_| 1 + rng.below(k.max(1))).collect();
+            (0, Some(Pct { prio, change_at }))
+        }
+    };
+    let first = rng.below(n as u64) as usize;
+    {
+        let _m = MonGuard::new();
+        let mut g = STATE.lock().unwrap_or_else(|e| e.into_inner());
+        *g = Some(State {
+            running: true,
+            current: first,
+            status: vec![Status::Runnable; n],
+            rng,
+            switch_pm,
+            steps: 0,
+            max_steps,
+            trace_hash: 0,
+            switches: 0,
+            free_run: false,
+            pct,
+            points_by_id: [0; 16],
+            lock_blocks: 0,
+            kernel_blocks: 0,
+            conds: (0..n).map(|_| None).collect(),
+            epoch: 0,
+            blocked_epoch: vec![0; n],
+        });
+    }
+    ABORT.store(false, Ordering::SeqCst);
+    ACTIVE.store(true, Ordering::SeqCst);
+    let mut handles = Vec::new();
+    for (i, f) in threads.into_iter().enumerate() {
+        handles.push(
+            std::thread::Builder::new()
+                .name(format!("sched-{i}"))
+                .spawn(move || {
+                    TID.with(|t| t.set(Some(i)));
+                    {
+                        let g = STATE.lock().unwrap_or_else(|e| e.into_inner());
+                        let _g = wait_for_baton(g, i);
+                    }
+                    let r = std::panic::catch_unwind(std::panic::AssertUnwindSafe(f));
+                    // Finished: hand the baton on.
+                    {
+                        let _m = MonGuard::new();
+                        let mut g = STATE.lock().unwrap_or_else(|e| e.into_inner());
+                        let st = g.as_mut().unwrap();
+                        st.status[i] = Status::Finished;
+                        if !st.free_run {
+                            match pick(st, i, true) {
+                                Some(next) if next != i => switch_to(st, i, next),
+                                _ => {
+                                    // Nobody runnable: if unfinished threads remain they are
+                                    // blocked in the kernel forever; let them find out.
+                                    if st.status.iter().any(|s| !matches!(s, Status::Finished)) {
+                                        st.free_run = true;
+                                        notify_all();
+                                    }
+                                }
+                            }
+                        }
+                    }
+                    TID.with(|t| t.set(None));
+                    if let Err(p) = r {
+                        std::panic::resume_unwind(p);
+                    }
+                })
+                .expect("spawn"),
+        );
+    }
+    let mut panicked = None;
+    for h in handles {
+        if let Err(p) = h.join() {
+            panicked = Some(p);
+        }
+    }
+    ACTIVE.store(false, Ordering::SeqCst);
+    let st = {
+        let _m = MonGuard::new();
+        STATE.lock().unwrap_or_else(|e| e.into_inner()).take().unwrap()
+    };
+    if let Some(p) = panicked {
+        std::panic::resume_unwind(p);
+    }
+    RunStats {
+        steps: st.steps,
+        switches: st.switches,
+        trace_hash: st.trace_hash,
+        budget_exhausted: st.free_run && st.steps > st.max_steps,
+        lock_blocks: st.lock_blocks,
+        kernel_blocks: st.kernel_blocks,
+        points_by_id: st.points_by_id,
+    }
 }
